@@ -172,7 +172,66 @@ pub fn b_page3<S: Src>(s: &mut S) -> Result<(), String> {
 }
 harness!(c35_page3, b_page3, 5);
 
+/// apply_pagination on two rows (one Int64 value each): exactly rows[offset .. offset+limit]
+pub fn b_page2<S: Src>(s: &mut S) -> Result<(), String> {
+    use inputlayer::protocol::handler::verif_apply_pagination;
+    use inputlayer::protocol::wire::WireTuple;
+    let rows = vec![WireTuple::new(vec![WireValue::Int64(10)]), WireTuple::new(vec![WireValue::Int64(11)])];
+    let has_l = s.bool();
+    let has_o = s.bool();
+    let l = s.u8() as usize;
+    let o = s.u8() as usize;
+    s.assume(l <= 3 && o <= 3);
+    let limit = if has_l { Some(l) } else { None };
+    let offset = if has_o { Some(o) } else { None };
+    let out = verif_apply_pagination(rows, limit, offset);
+    let start = if has_o { o } else { 0 };
+    let avail = if start >= 2 { 0 } else { 2 - start };
+    let want = if has_l && l < avail { l } else { avail };
+    let mut r = Ok(());
+    if out.len() != want {
+        r = Err(String::from("page has the wrong number of rows"));
+    } else {
+        let mut i = 0;
+        while i < out.len() {
+            let ok = matches!(out[i].values.get(0), Some(WireValue::Int64(v)) if *v == 10 + (start + i) as i64);
+            if !ok {
+                r = Err(String::from("page is not the requested slice"));
+            }
+            i += 1;
+        }
+    }
+    cover!(want == 1 && start == 1, "second row only");
+    std::mem::forget(out);
+    r
+}
+harness!(c35_page2, b_page2, 4);
+
+/// apply_pagination on three empty rows: only the number of rows returned
+pub fn b_pagelen3<S: Src>(s: &mut S) -> Result<(), String> {
+    use inputlayer::protocol::handler::verif_apply_pagination;
+    use inputlayer::protocol::wire::WireTuple;
+    let rows = vec![WireTuple::new(Vec::new()), WireTuple::new(Vec::new()), WireTuple::new(Vec::new())];
+    let has_l = s.bool();
+    let has_o = s.bool();
+    let l = s.u8() as usize;
+    let o = s.u8() as usize;
+    let limit = if has_l { Some(l) } else { None };
+    let offset = if has_o { Some(o) } else { None };
+    let out = verif_apply_pagination(rows, limit, offset);
+    let start = if has_o { o } else { 0 };
+    let avail = if start >= 3 { 0 } else { 3 - start };
+    let want = if has_l && l < avail { l } else { avail };
+    let r = if out.len() != want { Err(String::from("page has the wrong number of rows")) } else { Ok(()) };
+    cover!(want == 2, "two-row page");
+    std::mem::forget(out);
+    r
+}
+harness!(c35_pagelen3, b_pagelen3, 5);
+
 pub fn register(v: &mut Vec<(&'static str, NativeBody)>) {
+    v.push(("c35_page2", b_page2::<NativeSrc>));
+    v.push(("c35_pagelen3", b_pagelen3::<NativeSrc>));
     v.push(("c35_sort2", b_sort2::<NativeSrc>));
     v.push(("c35_page3", b_page3::<NativeSrc>));
     v.push(("c35_pair", b_pair::<NativeSrc>));
